@@ -28,3 +28,28 @@
             let x = t[i]; assert!(x > 4000 && x < 10000);
         }
     }
+    // nesting in kappa, one comparison per harness: lb(k+1) <= lb(k), ub(k) <= ub(k+1)
+    fn cpc_nest(lo: u8, hi: u8, merge: bool, upper: bool, a: NumStdDev, b: NumStdDev) {
+        let lg_k: u8 = kani::any(); kani::assume(lg_k >= lo && lg_k <= hi);
+        let c: u32 = kani::any(); kani::assume(c > 0);
+        let h: f64 = kani::any(); kani::assume(h.is_finite() && h >= c as f64);
+        unsafe { C01_ICON = h; }
+        if upper { assert!(upper_bound(merge, h, lg_k, c, a) <= upper_bound(merge, h, lg_k, c, b)); }
+        else { assert!(lower_bound(merge, h, lg_k, c, b) <= lower_bound(merge, h, lg_k, c, a)); }
+    }
+    #[kani::proof] fn c01_cpc_hip_nest_lb2_le_lb1_lgk_4_14() { cpc_nest(4, 14, false, false, NumStdDev::One, NumStdDev::Two); }
+    #[kani::proof] fn c01_cpc_hip_nest_lb3_le_lb2_lgk_4_14() { cpc_nest(4, 14, false, false, NumStdDev::Two, NumStdDev::Three); }
+    #[kani::proof] fn c01_cpc_hip_nest_ub1_le_ub2_lgk_4_14() { cpc_nest(4, 14, false, true, NumStdDev::One, NumStdDev::Two); }
+    #[kani::proof] fn c01_cpc_hip_nest_ub2_le_ub3_lgk_4_14() { cpc_nest(4, 14, false, true, NumStdDev::Two, NumStdDev::Three); }
+    #[kani::proof] #[kani::stub(icon_estimate, icon_stub)] fn c01_cpc_icon_nest_lb2_le_lb1_lgk_4_14() { cpc_nest(4, 14, true, false, NumStdDev::One, NumStdDev::Two); }
+    #[kani::proof] #[kani::stub(icon_estimate, icon_stub)] fn c01_cpc_icon_nest_lb3_le_lb2_lgk_4_14() { cpc_nest(4, 14, true, false, NumStdDev::Two, NumStdDev::Three); }
+    #[kani::proof] #[kani::stub(icon_estimate, icon_stub)] fn c01_cpc_icon_nest_ub1_le_ub2_lgk_4_14() { cpc_nest(4, 14, true, true, NumStdDev::One, NumStdDev::Two); }
+    #[kani::proof] #[kani::stub(icon_estimate, icon_stub)] fn c01_cpc_icon_nest_ub2_le_ub3_lgk_4_14() { cpc_nest(4, 14, true, true, NumStdDev::Two, NumStdDev::Three); }
+    #[kani::proof] fn c01_cpc_hip_nest_lb2_le_lb1_lgk_15_26() { cpc_nest(15, 26, false, false, NumStdDev::One, NumStdDev::Two); }
+    #[kani::proof] fn c01_cpc_hip_nest_lb3_le_lb2_lgk_15_26() { cpc_nest(15, 26, false, false, NumStdDev::Two, NumStdDev::Three); }
+    #[kani::proof] fn c01_cpc_hip_nest_ub1_le_ub2_lgk_15_26() { cpc_nest(15, 26, false, true, NumStdDev::One, NumStdDev::Two); }
+    #[kani::proof] fn c01_cpc_hip_nest_ub2_le_ub3_lgk_15_26() { cpc_nest(15, 26, false, true, NumStdDev::Two, NumStdDev::Three); }
+    #[kani::proof] #[kani::stub(icon_estimate, icon_stub)] fn c01_cpc_icon_nest_lb2_le_lb1_lgk_15_26() { cpc_nest(15, 26, true, false, NumStdDev::One, NumStdDev::Two); }
+    #[kani::proof] #[kani::stub(icon_estimate, icon_stub)] fn c01_cpc_icon_nest_lb3_le_lb2_lgk_15_26() { cpc_nest(15, 26, true, false, NumStdDev::Two, NumStdDev::Three); }
+    #[kani::proof] #[kani::stub(icon_estimate, icon_stub)] fn c01_cpc_icon_nest_ub1_le_ub2_lgk_15_26() { cpc_nest(15, 26, true, true, NumStdDev::One, NumStdDev::Two); }
+    #[kani::proof] #[kani::stub(icon_estimate, icon_stub)] fn c01_cpc_icon_nest_ub2_le_ub3_lgk_15_26() { cpc_nest(15, 26, true, true, NumStdDev::Two, NumStdDev::Three); }
